@@ -19,6 +19,38 @@ def scan(repo="/repo"):
                     out.append("%s: %s" % (os.path.relpath(p, repo), re.sub(r"\s+", " ", code.strip())))
     return sorted(set(out))
 
+KEEP = {"let", "mut", "fn", "pub", "impl", "for", "in", "if", "else", "match", "use", "struct", "enum", "self", "as", "ref", "where", "type",
+        "std", "im", "collections", "hash_map", "crate", "super", "return", "static", "const", "dyn", "move", "loop", "while"}
+def norm(line):
+    """a source line with the names a maintainer is free to choose blanked out: lower-case identifiers that are
+    neither called (`name(`, `name!`) nor path segments (`a::b`) nor keywords become `_`; file name, types,
+    methods and shape stay. Renaming a variable or field is then not a change of the inventory; a container
+    of another type, another method on it, or an additional site is."""
+    f, _, code = line.partition(": ")
+    def sub(m):
+        w = m.group(0); st, en = m.start(), m.end()
+        after = code[en:en + 2]; before = code[max(0, st - 2):st]
+        if w in KEEP or after.startswith("(") or after.startswith("!") or after.startswith("::") or before.endswith("::") or before.endswith("."):
+            return w
+        return "_"
+    return f + ": " + re.sub(r"\b[a-z_][a-z0-9_]*\b", sub, code)
+
+def compare(inv_lines, now_lines):
+    """-> (new, gone): sites of the sources that the reviewed inventory does not have / no longer has, compared on
+    the normalised text and as multisets"""
+    from collections import Counter
+    a = Counter(norm(l) for l in inv_lines); b = Counter(norm(l) for l in now_lines)
+    newn = b - a; gonen = a - b
+    new = []; c = Counter()
+    for l in now_lines:
+        n = norm(l)
+        if c[n] < newn.get(n, 0): new.append(l); c[n] += 1
+    gone = []; c = Counter()
+    for l in inv_lines:
+        n = norm(l)
+        if c[n] < gonen.get(n, 0): gone.append(l); c[n] += 1
+    return new, gone
+
 def classify(line):
     rules = [
         (r"^src/nested_env/", "keywise: Env merge/flatten/expand act per key (theorems merge_keywise, C14_env); iteration order unobservable"),
